@@ -414,6 +414,11 @@ func ReadConfOrDenial(r io.Reader) (AgMessage, error) {
 
 // WriteIntentDenied writes intent denied message with reason
 func WriteIntentDenied(w io.Writer, reason string) error {
+	// The reason is encoded with a one-byte length. A longer text would wrap
+	// the length and leave stray bytes in the stream, so it is cut to fit.
+	if len(reason) > math.MaxUint8 {
+		reason = reason[:math.MaxUint8]
+	}
 	m := AgMessage{
 		MsgType: IntentDenied,
 		Data: MessageData{
